@@ -172,4 +172,191 @@ def showNodes (ns : List Node) : String :=
   if ns.isEmpty then "-" else
   ",".intercalate ((sortNodes ns).map fun n => s!"{n.id}:{roleCh n.role}:{statusCh n.status}")
 
+def showIds (l : List Nat) : String :=
+  if l.isEmpty then "-" else ",".intercalate ((l.mergeSort (· ≤ ·)).map toString)
+
+def Change.show : Change → String
+  | .add id st => s!"add:{id}:{statusCh st}"
+  | .remove id => s!"rm:{id}"
+  | .promote id => s!"pro:{id}"
+  | .batchPromote ids st => s!"bp:{",".intercalate (ids.map toString)}:{statusCh st}"
+  | .batchRemove ids => s!"br:{",".intercalate (ids.map toString)}"
+  | .nil => "nil"
+
+/-! ### a learner node (learner_state.rs) -/
+
+structure Learner where
+  self : Nat
+  term : Nat
+  view : View
+deriving Repr, Inhabited
+
+/-- `LearnerState::handle_inbound_event(ReceiveVoteRequest)`: the term is adopted, the vote is never
+    granted. Returns (state, granted). -/
+def learnerVote (s : Learner) (reqTerm : Nat) : Learner × Bool :=
+  ({ s with term := if reqTerm > s.term then reqTerm else s.term }, false)
+
+/-- `LearnerState::tick` / `is_timer_expired`: nothing happens, no event. -/
+def learnerTick (s : Learner) : Learner × List String := (s, [])
+def learnerTimerExpired (_ : Learner) : Bool := false
+
+/-- config change applied by the commit handler, then `LearnerState::handle_membership_applied`:
+    `BecomeFollower` iff the node's own entry now has a non-learner role. -/
+def learnerApply (s : Learner) (c : Change) : Learner × List String :=
+  let r := applyChange s.view c
+  match r.2.1 with
+  | some e => ({ s with view := r.1 }, [s!"!{e.tag}"])
+  | none =>
+    let ev := match find? r.1.nodes s.self with
+      | some me => if me.role != rLearner then ["BF"] else []
+      | none => []
+    ({ s with view := r.1 }, ev)
+
+inductive LearnerOp where
+  | vote (term : Nat)
+  | tick
+  | change (c : Change)
+  | bad
+
+/-- one step: (state, granted?, events) -/
+def learnerStep (s : Learner) : LearnerOp → Learner × Option Bool × List String
+  | .vote t => let r := learnerVote s t; (r.1, some r.2, [])
+  | .tick => let r := learnerTick s; (r.1, none, r.2)
+  | .change c => let r := learnerApply s c; (r.1, none, r.2)
+  | .bad => (s, none, ["!bad-op"])
+
+def learnerRun (s : Learner) : List LearnerOp → Learner × List (Option Bool × List String)
+  | [] => (s, [])
+  | op :: rest =>
+    let r := learnerStep s op
+    let t := learnerRun r.1 rest
+    (t.1, (r.2.1, r.2.2) :: t.2)
+
+/-! ### a cluster of nodes applying one config log with per-node lag (C26) -/
+
+structure CNode where
+  id : Nat
+  view : View
+  applied : Nat
+deriving Repr, Inhabited
+
+structure Cluster where
+  lead : Nat
+  glog : List Change
+  nodes : List CNode
+deriving Repr, Inhabited
+
+def Cluster.viewOf (c : Cluster) (id : Nat) : Option View := (c.nodes.find? (·.id == id)).map (·.view)
+
+/-- voters a node counts for an election / commit by its own view: itself plus `voters()`;
+    `none` while its own entry says Learner (or is gone) -/
+def voterSet (n : CNode) : Option (List Nat) :=
+  match find? n.view.nodes n.id with
+  | some me => if me.role != rLearner then some (n.id :: (voters n.id n.view.nodes).map (·.id)) else none
+  | none => none
+
+inductive ClOp where
+  | promote (pending : List Nat)          -- handle_promote_ready_learners with this queue
+  | join (id status role : Nat)           -- handle_join_cluster
+  | stale (id : Nat)                      -- handle_stale_learner
+  | apply (node k : Nat)                  -- node applies the config log up to entry k
+  | bad
+
+def applyEntries (n : CNode) (glog : List Change) (k : Nat) (fuel : Nat) : CNode × List String :=
+  match fuel with
+  | 0 => (n, [])
+  | fuel + 1 =>
+    if n.applied < min k glog.length then
+      match glog[n.applied]? with
+      | none => (n, [])
+      | some c =>
+        let r := applyChange n.view c
+        let n' : CNode := { n with view := r.1, applied := n.applied + 1 }
+        let t := applyEntries n' glog k fuel
+        (t.1, (match r.2.1 with | some e => [s!"!{e.tag}"] | none => []) ++ t.2)
+    else (n, [])
+
+def clStep (c : Cluster) : ClOp → Cluster × List String × String
+  | .promote pending =>
+    match c.viewOf c.lead with
+    | none => (c, ["left:" ++ showIds pending], "promote:no-leader-view")
+    | some v =>
+      let k := safeBatchSize ((voters c.lead v.nodes).length + 1) pending.length
+      if pending.isEmpty then (c, ["left:-"], "promote:empty")
+      else if k == 0 then (c, ["left:" ++ showIds pending], "promote:zero")
+      else
+        ({ c with glog := c.glog ++ [.batchPromote (pending.take k) sActive] },
+         ["left:" ++ showIds (pending.drop k)], if k ≥ 2 then "promote:batch" else "promote:single")
+  | .join id status role =>
+    match c.viewOf c.lead with
+    | none => (c, [], "join:no-leader-view")
+    | some v =>
+      match joinCheck v id role with
+      | some t => (c, [s!"!{t}", "join-rejected"], "join:" ++ t)
+      | none => ({ c with glog := c.glog ++ [.add id status] }, ["join-pending"], "join:proposed")
+  | .stale id => ({ c with glog := c.glog ++ [.batchRemove [id]] }, [], "stale")
+  | .apply node k =>
+    if c.nodes.any (·.id == node) then
+      let rs := c.nodes.map fun n => if n.id == node then applyEntries n c.glog k (c.glog.length + 1) else (n, [])
+      ({ c with nodes := rs.map (·.1) }, rs.flatMap (·.2), "apply")
+    else (c, ["!no-such-node"], "apply:no-such-node")
+  | .bad => (c, ["!bad-op"], "bad-op")
+
+def initCluster (lead : Nat) (initial : List Node) : Cluster :=
+  { lead := lead, glog := [], nodes := initial.map fun n => { id := n.id, view := { nodes := initial }, applied := 0 } }
+
+/-- can a majority of `a` and a majority of `b` be chosen disjoint? (`a`, `b` duplicate-free) -/
+def canDisjoint (a b : List Nat) : Bool :=
+  let inter := (a.filter fun x => b.contains x).length
+  let onlyA := a.length - inter
+  let onlyB := b.length - inter
+  let needA := a.length / 2 + 1
+  let needB := b.length / 2 + 1
+  (needA - onlyA) + (needB - onlyB) ≤ inter
+
+/-- first pair of nodes whose voter sets admit disjoint majorities -/
+def disjointPair (sets : List (Nat × List Nat)) : Option (Nat × Nat) :=
+  sets.findSome? fun x => (sets.find? fun y => canDisjoint x.2 y.2).map fun y => (x.1, y.1)
+
+/-! ### one node through commit, apply and restart (C28) -/
+
+structure RsNode where
+  initial : List Node
+  entries : List LogEntry := []
+  view : View
+  lastApplied : Nat := 0
+  pendingCommit : Nat := 0
+  restarts : Nat := 0
+deriving Repr, Inhabited
+
+inductive RsOp where
+  | conf (c : Change)
+  | cmd
+  | commit (k : Nat)
+  | restart
+  | bad
+
+def rsStep (s : RsNode) : RsOp → RsNode × String
+  | .conf c => ({ s with entries := s.entries ++ [.conf c] }, "append:conf")
+  | .cmd => ({ s with entries := s.entries ++ [.cmd] }, "append:cmd")
+  | .commit k =>
+    let k := min k s.entries.length
+    let pc := max s.pendingCommit k
+    if pc > s.lastApplied then
+      let batch := (s.entries.drop s.lastApplied).take (pc - s.lastApplied)
+      ({ s with pendingCommit := pc, lastApplied := pc, view := applyBatch s.view batch false },
+        if batch.any (fun e => match e with | .conf _ => true | .cmd => false) then "commit:conf" else "commit:cmd")
+    else ({ s with pendingCommit := pc }, "commit:nothing")
+  | .restart =>
+    ({ s with view := restartView s.initial, pendingCommit := 0, restarts := s.restarts + 1 },
+      if s.view == restartView s.initial then "restart:same" else "restart:forgets")
+  | .bad => (s, "bad-op")
+
+def rsRecord (s : RsNode) : String :=
+  s!"M[{showNodes s.view.nodes}] la{s.lastApplied} ci{s.lastApplied} r{s.restarts}"
+
+/-- reference for C28: the applied config entries folded over the initial configuration -/
+def rsReference (initial : List Node) (entries : List LogEntry) (lastApplied : Nat) : View :=
+  foldConf { nodes := initial } (entries.take lastApplied)
+
 end DEngine.Memb
